@@ -146,6 +146,10 @@ func (r *cref) one(s *cst) sig {
 	case "forpairs":
 		// for [p, x] in [[10, 1], [20, 2]]
 		return r.loop(s, []int{1, 2})
+	case "formap1":
+		// for e in {"b": 2, "a": 1, "c": 3}: e is the [key, value] pair; the pair of
+		// the previous iteration is kept and must still be that pair
+		return r.loop(s, []int{1, 2, 3})
 	case "call":
 		g := r.exec(s.body)
 		switch g.kind {
@@ -182,8 +186,11 @@ func (r *cref) one(s *cst) sig {
 }
 
 func (r *cref) loop(s *cst, vals []int) sig {
-	for _, x := range vals {
+	for i, x := range vals {
 		r.trace = append(r.trace, fmt.Sprintf("x=%d", x))
+		if s.kind == "formap1" && i > 0 {
+			r.trace = append(r.trace, fmt.Sprintf("prev=%s%d", string(rune('a'+vals[i-1]-1)), vals[i-1]))
+		}
 		g := sig{}
 		if s.exit != nil && (s.when == 0 || s.when == x) {
 			g = r.one(s.exit)
@@ -259,7 +266,7 @@ func c04Render(list []*cst, ind string, b *strings.Builder, loopVar string) {
 				c04Render(s.fin, ind+"  ", b, loopVar)
 			}
 			fmt.Fprintf(b, "%s}\n", ind)
-		case "forrange", "forlist", "forcond", "formap", "forpairs":
+		case "forrange", "forlist", "forcond", "formap", "forpairs", "formap1":
 			c04FuncCtr++
 			v := fmt.Sprintf("x%d", c04FuncCtr)
 			switch s.kind {
@@ -281,8 +288,13 @@ func c04Render(list []*cst, ind string, b *strings.Builder, loopVar string) {
 				fmt.Fprintf(b, "%sm%s := {\"b\": 2, \"a\": 1, \"c\": 3}\n%sfor [k%s, %s] in m%s {\n", ind, v, ind, v, v, v)
 			case "forpairs":
 				fmt.Fprintf(b, "%sfor [k%s, %s] in [[10, 1], [20, 2]] {\n", ind, v, v)
+			case "formap1":
+				fmt.Fprintf(b, "%sm%s := {\"b\": 2, \"a\": 1, \"c\": 3}\n%sp%s := null\n%sfor e%s in m%s {\n%s  %s := e%s[1]\n", ind, v, ind, v, ind, v, v, ind, v, v)
 			}
 			fmt.Fprintf(b, "%s  mark(\"x=\", %s)\n", ind, v)
+			if s.kind == "formap1" {
+				fmt.Fprintf(b, "%s  if p%s != null {\n%s    mark(\"prev=\", p%s[0], p%s[1])\n%s  }\n%s  p%s := e%s\n", ind, v, ind, v, v, ind, ind, v, v)
+			}
 			if s.exit != nil {
 				if s.when != 0 {
 					fmt.Fprintf(b, "%s  if %s == %d {\n", ind, v, s.when)
@@ -452,7 +464,7 @@ func c04Key(prog []*cst, got, want, gotErr, wantErr string) string {
 				if s.exit != nil {
 					walk([]*cst{s.exit}, inTry)
 				}
-			case "forlist", "forcond", "formap", "forpairs":
+			case "forlist", "forcond", "formap", "forpairs", "formap1":
 				walk(s.body, inTry)
 				if s.exit != nil {
 					walk([]*cst{s.exit}, inTry)
@@ -580,7 +592,7 @@ func c04Loops(c *Ctx) {
 		}
 	}
 	loops = append(loops, &cst{kind: "forlist", list: []int{1, 2, 3}}, &cst{kind: "forlist", list: nil}, &cst{kind: "forlist", list: []int{2}}, &cst{kind: "forcond"},
-		&cst{kind: "formap"}, &cst{kind: "forpairs"})
+		&cst{kind: "formap"}, &cst{kind: "forpairs"}, &cst{kind: "formap1"})
 	for _, lp := range loops {
 		for _, ex := range exits {
 			for when := 0; when <= 3; when++ {
